@@ -1,4 +1,6 @@
 """C11 - predict_rank ranks agree with its probabilities and complement predict_draw.  E1, invariant."""
+import math
+
 from vf import core, lib, pred, spaces
 
 PID = "C11"
@@ -8,7 +10,7 @@ RULE = ("every game of the prediction space G (2..5 teams quick, ..8 thorough; v
         "identical teams, i.e. exact probability ties) under K0 and G2+G3 under K1,K9,K10, plus 8-team games built from <=3 "
         "distinct values (tie patterns), all five classes; oracle: n pairs in input order, prob in [0,1], ranks ints in 1..n, "
         "p_a > p_b => rank_a < rank_b, p_a == p_b => rank_a == rank_b, arg-max has rank 1 (all on the returned floats); n>=3: "
-        "sum(p) + predict_draw = 1 (1e-12); non-trivial = game with >=2 distinct teams, or with an exact probability tie")
+        "sum(p) + predict_draw = 1 (1e-12); every G3/G4 game again as a near twin (second team = first team with one mu one ulp higher); non-trivial = game with >=2 distinct teams, or with an exact probability tie")
 ASSUMPTIONS = ["order clauses are evaluated on the returned floats exactly (no tolerance)", "sum clause 1e-12*n absolute"]
 
 
@@ -100,6 +102,19 @@ def run_unit(unit, ctx):
                 acc.add("games_with_exact_probability_ties")
             for what, msg in eval_case(kind, cfg, game):
                 acc.violation(PID, f"{kind}:{what}:n{min(len(game), 3)}", msg, pred.case(cfg, game, kind))
+        if unit[0] == "g" and unit[1] in ("G3", "G4") and len(game) >= 3:
+            # near twins: the second team becomes a copy of the first whose first member's mu is ONE ULP higher - probabilities that differ
+            # in the last bit or collapse to the same float, where a ranking computed from anything but the returned probabilities
+            # (totals before a division, rounded values) disagrees with them
+            (m0, s0), rest = game[0][0], list(game[0][1:])
+            twin = [[(math.nextafter(m0, math.inf), s0)] + rest]
+            g2 = [game[0]] + twin + list(game[2:])
+            for kind in spaces.KINDS:
+                acc.evals += 1
+                acc.nontrivial += 1
+                acc.add("near_twin_games")
+                for what, msg in eval_case(kind, cfg, g2):
+                    acc.violation(PID, f"{kind}:{what}:twin", msg, pred.case(cfg, g2, kind))
     acc.sample(pred.case(cfg, game))
     return acc
 
